@@ -90,6 +90,22 @@ fn entries() -> Vec<Entry> {
             call: Arc::new(|ip, port, ts| j(mc::protocol::query_legacy_specific(mc::LegacyGroup::V1_6, &SocketAddr::new(ip, port), ts))),
             replies: 1,
         },
+        // the definition-driven entry point (it has to hand the caller's timeout settings on to the protocol): one TCP and
+        // one UDP game
+        Entry {
+            name: "minecraftlegacy14 (definition-driven)",
+            family: Family::Legacy(LegacyKind::V1_4),
+            tcp: true,
+            call: Arc::new(|ip, port, ts| j(gamedig::query_with_timeout(gamedig::GAMES.get("minecraftlegacy14").unwrap(), &ip, Some(port), ts).map(|r| r.as_json().name.map(str::to_string)))),
+            replies: 1,
+        },
+        Entry {
+            name: "q3a (definition-driven)",
+            family: Family::Quake(Ver::Three),
+            tcp: false,
+            call: Arc::new(|ip, port, ts| j(gamedig::query_with_timeout(gamedig::GAMES.get("q3a").unwrap(), &ip, Some(port), ts).map(|r| r.as_json().name.map(str::to_string)))),
+            replies: 1,
+        },
     ]
 }
 
